@@ -22,7 +22,7 @@ RULE = (
     "(yes/no) as a universal machine, BFS to closure on sync and async; a case is one step; for every final-state "
     "entry in the step's log the reference counter derives the due onDone firings (compound: parent of the "
     "entered final child; parallel: when every non-history region is in a final state at that instant) and the "
-    "multiset of observed onDone markers with their event data must equal it; top-level: status done once, "
+    "multiset of observed onDone markers with their event data must equal it; top-level (also with a second event queued behind the completing one in a send_events batch): status done once, "
     "output precedence, no reaction to events afterwards; distinct_nontrivial = distinct canonical states"
 )
 BOUNDS = {
@@ -235,6 +235,23 @@ def run_unit(unit):
                     flag("event-after-done-ran-code", f"{noisy[:4]}", hist, ev)
                 return False
             judge(seg, hist, ev, key_before[2], d)
+            if d.observe()[2] == "done":
+                # the step that completes the machine, again, with a second event queued BEHIND it in the same batch:
+                # "from then on sent events are ignored and no user code runs" holds for what is already queued too
+                probe = next((n for n, e in events.items() if e["kind"] == "T" and e["src"] == nodes[0].id), None)
+                if probe is not None:
+                    d2, _ = build(h, engine, hist)
+                    try:
+                        m2 = d2.rec.mark()
+                        d2.send_batch([ev, probe])
+                        if engine == "async":
+                            d2.settle()
+                        seg2 = d2.rec.since(m2)
+                        late = [e for e in seg2 if (e[0] == "EV" and e[1] == probe) or (e[0] == "A" and str(e[1]).startswith("tr:" + probe))]
+                        if late:
+                            flag("queued-event-processed-after-done", f"batch [{ev}, {probe}]: {late[:3]}", hist, ev)
+                    finally:
+                        d2.close()
             return True
 
         def menu(d):
